@@ -258,8 +258,8 @@ func roundtripCase(c *Ctx) {
 	spc.Gen = []GenOp{{Key: "Subject", Values: []string{subject}}}
 	spc.Addr = []AddrOp{{Kind: 0, Mode: "set", Values: []string{[]string{"alice@example.com", "Jürgen Müller <jm@example.de>", "\"Last, First\" <lf@example.net>", "\"Zoë \\\\ Backslash\" <zoe@example.com>",
 		"\"Ein Anzeigename mit Umlauten äöü, der länger ist als ein einzelnes encoded-word tragen kann\" <long@example.com>"}[r.Intn(5)]}},
-		{Kind: 2, Mode: "set", Values: [][]string{{"Bob <bob@example.org>"}, {"Bob <bob@example.org>", "carol@example.com"}, {"\"Smith, Mary\" <mary@example.org>"},
-			{"carol@example.com", "\"Example, Inc. Support\" <support@example.com>", "\"Ünïcode, Comma\" <uc@example.com>"}}[r.Intn(4)]}}
+		{Kind: 2, Mode: "set", Values: [][]string{{"Bob <bob@example.org>"}, {"\"john doe\"@example.com"}, {"plain@example.com", "\"a@b\"@example.org", "\" lead\"@example.net"}, {"Bob <bob@example.org>", "carol@example.com"}, {"\"Smith, Mary\" <mary@example.org>"},
+			{"carol@example.com", "\"Example, Inc. Support\" <support@example.com>", "\"Ünïcode, Comma\" <uc@example.com>"}}[r.Intn(6)]}}
 	if r.Chance(40) {
 		spc.Addr = append(spc.Addr, AddrOp{Kind: 3, Mode: "set", Values: [][]string{{"Ünïcode Cc <cc@example.com>"}, {"\"Doe, John (Sales)\" <jd@example.com>", "plain@example.com"}}[r.Intn(2)]})
 	}
